@@ -771,7 +771,7 @@ MUTANTS = [
          rules=["a.sanitiser"], desc="a column named like a property (shape, name, T) would shadow it"),
     dict(id="reserved-only-vector", module=_N, old="		for cls in (Vector, Table):", new="		for cls in (Vector,):", rules=["a.sanitiser"]),
     dict(id="reserved-not-lowered", module=_N, old="					reserved.add(name.lower())", new="					reserved.add(name)", rules=["a.sanitiser"]),
-    dict(id="reserved-suffix-dropped", module=_N, old="	if sanitized in _get_reserved_names():\n		sanitized = sanitized + '_'\n", new="", rules=["a.sanitiser"]),
+    dict(id="reserved-suffix-dropped", module=_N, old="	if sanitized in _get_reserved_names() or keyword.iskeyword(sanitized):\n		sanitized = sanitized + '_'\n", new="", rules=["a.sanitiser"]),
     dict(id="headers-sep-differs", module=_D, old="				sep = \"\" if san.endswith(\"_\") else \"_\"", new="				sep = \"_\"", rules=["d.kernels-agree"]),
     dict(id="headers-over-shown-only", module=_D, old="	for idx, col in enumerate(cols):\n		# Sanitized dot name",
          new="	for idx in col_indices:\n		col = cols[idx]\n		# Sanitized dot name", rules=["d.kernels-agree"]),
